@@ -232,6 +232,38 @@ def run(R, tier, seed, driver_ok):
         psd = np.dot(V * np.maximum(0, l[None, :]), V.T)
         lines.append(f'mmc_psdproj {d} {bits(V)} {bits(l)}')
         meta.append(('vec', psd.ravel(), 1e-10 * max(np.abs(psd).max(), 1e-300), 'mmc_psdproj', case))
+    # ---- a zero similarity budget: a singular PSD initial matrix (legal for MMC) whose null space holds every similar-pair
+    #      difference makes the budget 0; the result must still keep the similar pairs at distance 0
+    for rep in range(2 if tier == 'quick' else 8):
+        d = int(rng.randint(3, 5))
+        # (axis-aligned and dyadic, so that the budget is EXACTLY 0: with a rotated null direction it is ±1e-17 and rounding
+        #  decides whether the constraint is vacuous)
+        Qz = np.eye(d)[:, rng.permutation(d)]
+        u = Qz[:, -1]
+        A0z = (Qz[:, :-1] * rng.choice([0.5, 1.0, 2.0], size=d - 1)).dot(Qz[:, :-1].T)
+        npz = int(rng.randint(2, 6)); nnz = int(rng.randint(3, 8))
+        bz = rng.randn(npz, d) * 2
+        posz = np.stack([bz, bz + rng.choice([0.5, 1.0, 1.5, 2.0], size=(npz, 1)) * u], axis=1)
+        negz = np.stack([rng.randn(nnz, d) * 2, rng.randn(nnz, d) * 2 + 3.0], axis=1)
+        pz = np.concatenate([posz, negz]); yz = np.array([1] * npz + [-1] * nnz)
+        casez = {'init': 'singular PSD array, similar differences in its null space (budget 0)', 'pairs': pz, 'y': yz, 'max_proj': 3, 'max_iter': 3}
+        R.case(('c14-zero-budget', pz.tobytes().hex()[:48]), True, branch='zero-budget-init')
+        try:
+            with warnings.catch_warnings():
+                warnings.simplefilter('ignore')
+                ez = MMC(init=A0z, max_proj=3, max_iter=3).fit(pz, yz)
+            Mz = ez.get_mahalanobis_matrix()
+            Sz = posz[:, 0] - posz[:, 1]
+            ssz = float(np.einsum('ij,jk,ik->', Sz, Mz, Sz))
+            if not np.all(np.isfinite(Mz)) or np.linalg.eigvalsh((Mz + Mz.T) / 2).min() < -1e-9 * max(np.abs(Mz).max(), 1e-300):
+                R.violation('MMC/not-psd', 'zero-budget instance: the learned matrix is not finite PSD', casez)
+            elif ssz > 1e-9 * max(np.abs(Mz).max(), 1e-300) * float((Sz ** 2).sum()):
+                R.violation('MMC/budget-exceeded', f'zero-budget instance: the sum of squared learned distances over the similar pairs is {ssz:.6g}, the budget is 0', casez)
+        except Exception as e:
+            if not isinstance(e, ValueError):
+                R.violation(f'MMC/fit-raises-{type(e).__name__}/zero-budget-init', f'MMC.fit raised {type(e).__name__}: {str(e)[:120]}', casez)
+            else:
+                R.count('zero-budget-init: ValueError')
     # ---- a zero iteration budget: the iterations start from the initial matrix, so with none of them it is returned
     for rep in range(2 if tier == 'quick' else 8):
         d = int(rng.randint(2, 5))
